@@ -384,7 +384,10 @@ def run(ck):
     stats = {"Decode": 0, "TlDecode": 0, "Helper": 0, "Bag": 0, "Panic": 0, "Timeout": 0, "Crash": 0, "values_judged": 0, "returned_value": 0}
     types, tltypes, sites = set(), set(), {}
     cand = []       # (job, event, note)
+    dec_judged = {"dec": 0, "dec-refuses": 0}
     for res, rejected in verdicts:
+        for t in res.tuples("JD"):
+            dec_judged[t[2]] = dec_judged.get(t[2], 0) + 1
         notes = notes_by_line(res)
         for rj in rejected:
             ns = notes.get(rj["line"], [])
@@ -411,6 +414,9 @@ def run(ck):
                 if e.get("undumpable"):
                     raise Infra("harness cannot describe a value returned by %s: %s" % (e.get("ty"), e["undumpable"]))
     ck.extra["events"] = stats
+    # returned values compared with the specification's own decoding of the same input (thorough tier / VERIF_C08_DEC=1):
+    # "dec" = TlbDec!DecLax returned a value and it is the library's; "dec-refuses" = the library was more tolerant than TL-B
+    ck.extra["values_compared_with_TlbDec"] = dec_judged
     ck.extra["tlb_types"] = len(types)
     ck.extra["tl_targets"] = len(tltypes)
     ck.extra["helper_sites"] = sites
@@ -517,6 +523,8 @@ def describe(e, note):
         return "%s did not return within %s ms (%s, input class %s)" % (where, e.get("limit_ms"), inp, e.get("class"))
     if note == "value":
         return "%s returned a value that is not a reading of its input (%s, input class %s)" % (where, inp, e.get("class"))
+    if note == "value-differs-from-Dec":
+        return "%s returned a value other than the one the specification's decoder (TlbDec) reads from the same input (%s, input class %s)" % (where, inp, e.get("class"))
     return "%s exceeded the %s budget of its input (%s, input class %s): size=%s cells=%s alloc_kb=%s ms=%s" % (
         where, note, inp, e.get("class"), e.get("size"), e.get("cells"), e.get("alloc_kb"), e.get("ms"))
 
